@@ -598,3 +598,8 @@ _add(
     "C06",
     m("context-free-filter-on-callnode", D, "                    ~exists().where(and_(Tag.entity_id == Job.id, Tag.key == CONTEXT_KEY))", "                    ~exists().where(and_(Tag.entity_id == CallNode.call_hash, Tag.key == CONTEXT_KEY))", "C06.8"),
 )
+_add(
+    "C22",
+    m("execution-tags-passed-as-chain", S, "            list(chain(self._exec_tags, tags)),", "            chain(self._exec_tags, tags),", "C22.8"),
+    m("put-records-retried-with-generator", D, "        return self._put_records(list(records))\n\n    @db_retry\n    def _put_records(self, records: list[dict]) -> int:\n        assert self._record_serializer\n", "        return self._put_records(records)\n\n    @db_retry\n    def _put_records(self, records: Iterable[dict]) -> int:\n        assert self._record_serializer\n        records = list(records)\n", "C22.8"),
+)
